@@ -51,7 +51,10 @@ def filterOfMask (mask : Nat) : List Rule :=
 /-- prefixes used by explicit prefix rules on the op line (same table as `PREFIXES` in c05_world.rs) -/
 def prefixTable : List String :=
   ["policy-commitment-", "policy-mutual-", "policy-", "policy-channel-", "policy-commitment-htlc-",
-   "policy-commitment-fee", "", "policy-onchain-", "policy-revoke-", "policy-funding-"]
+   "policy-commitment-fee", "", "policy-onchain-", "policy-revoke-", "policy-funding-",
+   -- longer than the real tags they extend: as prefix rules they match no real tag
+   "policy-commitment-fee-range-x", "policy-commitment-outputs-trimmed-more", "policy-mutual-fee-range-x",
+   "policy-commitment-htlc-count-limit2"]
 
 /-- explicit, ORDERED rules that precede the mask-derived ones: triples `<idx> <kind> <action>`;
     kind 0 = exact rule on the idx-th tag of `maskTags`, kind 1 = prefix rule on the idx-th entry of
